@@ -105,6 +105,19 @@ static const char rcsid[] = "$Id: proxyd.c,v 1.20 2013-08-28 14:45:58 mschimek E
 #include "src/bcd.h"
 #include "src/proxy-msg.h"
 
+#ifdef ZVBI_VERIF
+/* Verification hooks, never compiled by the regular build (see /verif/DESIGN.md):
+   - a synthetic capture device "sim:<fifo>[:thread]" which produces exactly one frame for every
+     4 byte frame number written to <fifo>, so that a test harness owns the capture clock;
+   - verif_trace(): one line per daemon action on the fd named by $ZVBI_VERIF_TRACE_FD. */
+#include <stdarg.h>
+static void verif_trace (const char * fmt, ...);
+static vbi_capture * verif_capture_new (const char * p_dev_name);
+#  define VERIF_TRACE(args...) verif_trace(args)
+#else
+#  define VERIF_TRACE(args...) do {} while (0)
+#endif
+
 #ifdef ENABLE_V4L2
 #include <asm/types.h>
 #include "src/videodev2k.h"    /* for setting device priority */
@@ -821,6 +834,212 @@ static void * vbi_proxyd_acq_thread( void * pvoid_arg )
    return NULL;
 }
 
+#ifdef ZVBI_VERIF
+/* ----------------------------------------------------------------------------
+** Verification hook: trace output
+*/
+static void verif_trace( const char * fmt, ... )
+{
+   static int trace_fd = -2;
+   static unsigned long seq;
+   char buf[2048];
+   va_list ap;
+   int n;
+
+   if (trace_fd == -2)
+   {
+      const char * p = getenv("ZVBI_VERIF_TRACE_FD");
+      trace_fd = (p != NULL) ? atoi(p) : -1;
+   }
+   if (trace_fd >= 0)
+   {
+      n = snprintf(buf, sizeof(buf), "{\"seq\":%lu,", ++seq);
+      va_start(ap, fmt);
+      n += vsnprintf(buf + n, sizeof(buf) - n - 2, fmt, ap);
+      va_end(ap);
+      if (n > (int) sizeof(buf) - 3)
+         n = sizeof(buf) - 3;
+      buf[n++] = '}';
+      buf[n++] = '\n';
+      if (write(trace_fd, buf, n) < 0)
+         trace_fd = -1;
+   }
+}
+
+/* ----------------------------------------------------------------------------
+** Verification hook: synthetic capture device
+** - services: Teletext B (lines 7, 8), VPS (16), Caption 625 (22), WSS 625 (23)
+** - payload byte k of a line is (frame * 31 + line * 7 + k) & 0xFF, the
+**   timestamp is the frame number
+** - the line range reported to the daemon grows and shrinks with the services
+*/
+typedef struct
+{
+   vbi_capture          cap;
+   int                  tick_fd;
+   vbi_bool             has_select;
+   unsigned int         services;
+   unsigned int         pending;
+   vbi_raw_decoder      dec;
+   vbi_capture_buffer   sliced_buffer;
+   vbi_sliced           lines[8];
+} verif_capture;
+
+#define VERIF_SERVICES (VBI_SLICED_TELETEXT_B | VBI_SLICED_VPS | VBI_SLICED_CAPTION_625 | VBI_SLICED_WSS_625)
+
+static const struct { unsigned int id; int line; } verif_lines[] =
+{
+   { VBI_SLICED_TELETEXT_B, 7 }, { VBI_SLICED_TELETEXT_B, 8 }, { VBI_SLICED_VPS, 16 },
+   { VBI_SLICED_CAPTION_625, 22 }, { VBI_SLICED_WSS_625, 23 }
+};
+
+static void verif_capture_update_dec( verif_capture * v )
+{
+   int i, lo = 0, hi = 0;
+
+   for (i = 0; i < 5; i++)
+      if (v->services & verif_lines[i].id)
+      {
+         if (lo == 0)
+            lo = verif_lines[i].line;
+         hi = verif_lines[i].line;
+      }
+
+   memset(&v->dec, 0, sizeof(v->dec));
+   v->dec.scanning = 625;
+   v->dec.sampling_format = VBI_PIXFMT_YUV420;
+   v->dec.sampling_rate = 13500000;
+   v->dec.bytes_per_line = 720;
+   v->dec.start[0] = (lo != 0) ? lo : 7;
+   v->dec.count[0] = (lo != 0) ? (hi - lo + 1) : 0;
+   v->dec.start[1] = 320;
+   v->dec.count[1] = 0;
+   v->dec.interlaced = FALSE;
+   v->dec.synchronous = TRUE;
+   v->dec.services = v->services;
+}
+
+static int verif_capture_read( vbi_capture * vc, vbi_capture_buffer ** raw,
+                               vbi_capture_buffer ** sliced, const struct timeval * timeout )
+{
+   verif_capture * v = (verif_capture *) vc;
+   uint32_t frame;
+   vbi_sliced * p_out;
+   unsigned int i, k, n;
+   ssize_t r;
+
+   raw = raw;
+
+   r = read(v->tick_fd, &frame, sizeof(frame));
+   if ((r < 0) && (errno == EAGAIN) && (v->has_select == FALSE))
+   {  /* acquisition thread: wait for the next tick */
+      struct timeval tv = *timeout;
+      fd_set rd;
+      FD_ZERO(&rd);
+      FD_SET(v->tick_fd, &rd);
+      if (select(v->tick_fd + 1, &rd, NULL, NULL, &tv) > 0)
+         r = read(v->tick_fd, &frame, sizeof(frame));
+   }
+   if (r != sizeof(frame))
+      return ((r < 0) && (errno != EAGAIN)) ? -1 : 0;
+
+   if (sliced == NULL)
+      return 1;
+
+   if (*sliced == NULL)
+   {
+      *sliced = &v->sliced_buffer;
+      v->sliced_buffer.data = v->lines;
+   }
+   p_out = (vbi_sliced *) (*sliced)->data;
+   n = 0;
+   for (i = 0; i < 5; i++)
+      if (v->services & verif_lines[i].id)
+      {
+         p_out[n].id = verif_lines[i].id;
+         p_out[n].line = verif_lines[i].line;
+         for (k = 0; k < sizeof(p_out[n].data); k++)
+            p_out[n].data[k] = (frame * 31 + verif_lines[i].line * 7 + k) & 0xFF;
+         n += 1;
+      }
+   (*sliced)->size = n * sizeof(vbi_sliced);
+   (*sliced)->timestamp = (double) frame;
+
+   return 1;
+}
+
+static vbi_raw_decoder * verif_capture_parameters( vbi_capture * vc )
+{
+   return &((verif_capture *) vc)->dec;
+}
+
+static unsigned int verif_capture_update_services( vbi_capture * vc, vbi_bool reset, vbi_bool commit,
+                                                   unsigned int services, int strict, char ** errstr )
+{
+   verif_capture * v = (verif_capture *) vc;
+
+   strict = strict;
+   errstr = errstr;
+
+   if (reset)
+      v->pending = 0;
+   services &= VERIF_SERVICES;
+   v->pending |= services;
+   if (commit)
+   {
+      v->services = v->pending;
+      verif_capture_update_dec(v);
+   }
+   return services;
+}
+
+static int verif_capture_get_scanning( vbi_capture * vc )    { vc = vc; return 625; }
+static void verif_capture_flush( vbi_capture * vc )          { vc = vc; }
+static int verif_capture_get_fd( vbi_capture * vc )          { return ((verif_capture *) vc)->tick_fd; }
+static VBI_CAPTURE_FD_FLAGS verif_capture_get_fd_flags( vbi_capture * vc )
+{
+   return ((verif_capture *) vc)->has_select ? VBI_FD_HAS_SELECT : 0;
+}
+static void verif_capture_delete( vbi_capture * vc )
+{
+   close(((verif_capture *) vc)->tick_fd);
+   free(vc);
+}
+
+static vbi_capture * verif_capture_new( const char * p_dev_name )
+{
+   verif_capture * v;
+   char path[256];
+   char * p;
+
+   strlcpy(path, p_dev_name + 4, sizeof(path));
+   v = calloc(1, sizeof(*v));
+   v->has_select = TRUE;
+   if ((p = strstr(path, ":thread")) != NULL)
+   {
+      *p = 0;
+      v->has_select = FALSE;
+   }
+   v->tick_fd = open(path, O_RDONLY | O_NONBLOCK);
+   if (v->tick_fd < 0)
+   {
+      free(v);
+      return NULL;
+   }
+   v->cap.read = verif_capture_read;
+   v->cap.parameters = verif_capture_parameters;
+   v->cap.update_services = verif_capture_update_services;
+   v->cap.get_scanning = verif_capture_get_scanning;
+   v->cap.flush = verif_capture_flush;
+   v->cap.get_fd = verif_capture_get_fd;
+   v->cap.get_fd_flags = verif_capture_get_fd_flags;
+   v->cap._delete = verif_capture_delete;
+   verif_capture_update_dec(v);
+
+   return &v->cap;
+}
+#endif  /* ZVBI_VERIF */
+
 /* ----------------------------------------------------------------------------
 ** Stop acquisition thread
 */
@@ -958,6 +1177,11 @@ static vbi_bool vbi_proxy_start_acquisition( int dev_idx, char ** pp_errorstr )
       pp_errorstr = &p_errorstr;
 
    p_proxy_dev->vbi_api = VBI_API_V4L2;
+#ifdef ZVBI_VERIF
+   if (strncmp(p_proxy_dev->p_dev_name, "sim:", 4) == 0)
+      p_proxy_dev->p_capture = verif_capture_new(p_proxy_dev->p_dev_name);
+   else
+#endif
    p_proxy_dev->p_capture = vbi_capture_v4l2_new(p_proxy_dev->p_dev_name, opt_buffer_count,
                                                  NULL, -1, pp_errorstr, opt_debug_level);
    if (p_proxy_dev->p_capture == NULL)
@@ -3015,6 +3239,14 @@ static void vbi_proxyd_parse_argv( int argc, char * argv[] )
          {
             if (proxy.dev_count >= SRV_MAX_DEVICES)
                proxy_usage_exit(argv[0], argv[arg_idx], "too many device paths");
+#ifdef ZVBI_VERIF
+            if (strncmp(argv[arg_idx + 1], "sim:", 4) == 0)
+            {
+               vbi_proxyd_add_device(argv[arg_idx + 1]);
+               arg_idx += 2;
+               continue;
+            }
+#endif
             if (stat(argv[arg_idx + 1], &stb) == -1)
                proxy_usage_exit(argv[0], argv[arg_idx +1], strerror(errno));
             if (!S_ISCHR(stb.st_mode))
